@@ -110,6 +110,8 @@ type Params struct {
 	CheckpointEvery uint64
 	WithRuntime     bool
 	RT              RuntimeParams // runtime support: zero unless WithRuntime
+	WithKeyManager  bool
+	KM              KMParams // key manager support: zero unless WithKeyManager
 }
 
 // Scenario is a genesis document plus all keys.
@@ -127,6 +129,12 @@ type Scenario struct {
 	RuntimeOwner *SimEntity
 	// RuntimeAddr is the staking account of the runtime (runtime support).
 	RuntimeAddr staking.Address
+	// KM is the key manager runtime, KMOwner the entity owning it, KMNodes the nodes with the key
+	// manager role, KMRSK the runtime signing key the nodes report (key manager support; nil without one).
+	KM      *registry.Runtime
+	KMOwner *SimEntity
+	KMNodes []*SimNode
+	KMRSK   *Account
 }
 
 func q(v uint64) quantity.Quantity { return *quantity.NewFromUint64(v) }
@@ -195,6 +203,10 @@ func NewScenario(seed uint64, profile string) *Scenario {
 		p.NumValidators = 4 + rng.IntN(4)
 		p.MaxValidators = 2 + rng.IntN(p.NumValidators)
 		p.EpochInterval = 6 + rng.Int64N(6)
+	case "keymanager": // key manager support: epochs long enough to publish, replicate and confirm within one
+		p.NumValidators = 3 + rng.IntN(3)
+		p.MaxValidators = 2 + rng.IntN(p.NumValidators)
+		p.EpochInterval = 5 + rng.Int64N(4)
 	}
 	s := &Scenario{Seed: seed, P: p, Profile: profile}
 
@@ -229,7 +241,8 @@ func NewScenario(seed uint64, profile string) *Scenario {
 		s.Signers = append(s.Signers, u)
 	}
 	s.Doc = s.buildDoc(rng)
-	s.addRuntime(rng, profile) // runtime support (drawn after all other scenario draws)
+	s.addRuntime(rng, profile)    // runtime support (drawn after all other scenario draws)
+	s.addKeyManager(rng, profile) // key manager support (drawn after the runtime's draws)
 	return s
 }
 
